@@ -6,6 +6,7 @@ import (
 	"sort"
 	"strings"
 	"testing"
+	"time"
 
 	"cloud.google.com/go/pubsub/apiv1/pubsubpb"
 	"pgregory.net/rapid"
@@ -314,9 +315,25 @@ func TestC07EndToEnd(t *testing.T) {
 				failWith(rt, failure{Rule: "reject-valid", Detail: fmt.Sprintf("CreateSubscription rejected valid filter %q: %v", texts[i], err), Replay: filterCase{Kind: "filter", Text: texts[i], Verdict: "IN", Via: "grpc-create"}})
 			}
 		}
+		// route: published straight to the topic, or arriving there as a
+		// dead-letter forward from another topic's subscription (same filter
+		// decision, different code path)
+		viaDL := rapid.IntRange(0, 2).Draw(rt, "route") == 0
+		pubTopic := topic
+		const srcTopic, srcSub = "projects/p/topics/src", "projects/p/subscriptions/src0"
+		if viaDL {
+			pubTopic = srcTopic
+			if _, err := s.Pub.CreateTopic(ctx, &pubsubpb.Topic{Name: srcTopic}); err != nil {
+				rt.Fatalf("create topic: %v", err)
+			}
+			if _, err := s.Sub.CreateSubscription(ctx, &pubsubpb.Subscription{Name: srcSub, Topic: srcTopic,
+				DeadLetterPolicy: &pubsubpb.DeadLetterPolicy{DeadLetterTopic: topic, MaxDeliveryAttempts: 1}}); err != nil {
+				rt.Fatalf("create source subscription: %v", err)
+			}
+		}
 		nmsg := rapid.IntRange(1, 5).Draw(rt, "nmsg")
 		attrs := make([]map[string]string, nmsg)
-		req := &pubsubpb.PublishRequest{Topic: topic}
+		req := &pubsubpb.PublishRequest{Topic: pubTopic}
 		for i := range attrs {
 			attrs[i] = e2eAttrs(rt, conds)
 			req.Messages = append(req.Messages, &pubsubpb.PubsubMessage{Data: []byte(fmt.Sprintf(`{"i":%d}`, i)), Attributes: attrs[i]})
@@ -328,6 +345,28 @@ func TestC07EndToEnd(t *testing.T) {
 		idx := map[string]int{}
 		for i, id := range pr.MessageIds {
 			idx[id] = i
+		}
+		via := "publish->filtered subscription"
+		if viaDL {
+			via = "dead-letter forward->filtered subscription"
+			// use up the single permitted attempt, make the messages due again,
+			// and let the next pull retire them into the dead-letter topic
+			r, err := s.Sub.Pull(ctx, &pubsubpb.PullRequest{Subscription: srcSub, MaxMessages: 100, ReturnImmediately: true})
+			if err != nil || len(r.ReceivedMessages) != nmsg {
+				rt.Fatalf("source pull: %v (%d of %d messages)", err, len(r.GetReceivedMessages()), nmsg)
+			}
+			var ids []string
+			for _, m := range r.ReceivedMessages {
+				ids = append(ids, m.AckId)
+			}
+			if _, err := s.Sub.ModifyAckDeadline(ctx, &pubsubpb.ModifyAckDeadlineRequest{Subscription: srcSub, AckIds: ids, AckDeadlineSeconds: 0}); err != nil {
+				rt.Fatalf("modack: %v", err)
+			}
+			sut.Advance(time.Second)
+			if r, err = s.Sub.Pull(ctx, &pubsubpb.PullRequest{Subscription: srcSub, MaxMessages: 100, ReturnImmediately: true}); err != nil || len(r.ReceivedMessages) != 0 {
+				rt.Fatalf("source pull after the last attempt: %v, %d messages (expected dead-lettering)", err, len(r.GetReceivedMessages()))
+			}
+			stats.C.Class("e2e/dead-letter-route", 1)
 		}
 		for si := range conds {
 			r, err := s.Sub.Pull(ctx, &pubsubpb.PullRequest{Subscription: fmt.Sprintf("projects/p/subscriptions/s%d", si), MaxMessages: 100, ReturnImmediately: true})
@@ -341,12 +380,13 @@ func TestC07EndToEnd(t *testing.T) {
 			for mi := range attrs {
 				want := conds[si].Eval(attrs[mi])
 				stats.C.Eval("e2e:"+stats.Hash([]any{texts[si], attrs[mi]}), c07NonTrivial(conds[si], attrs[mi]), func() any {
-					return map[string]any{"via": "publish->filtered subscription", "filter": texts[si], "attributes": attrs[mi], "delivered": want}
+					return map[string]any{"via": via, "filter": texts[si], "attributes": attrs[mi], "delivered": want}
 				})
 				if got[mi] != want {
 					failWith(rt, failure{
 						Rule:   "e2e-mismatch",
-						Detail: fmt.Sprintf("subscription with filter %q: message with attributes %v delivered=%v, reference says %v", texts[si], attrs[mi], got[mi], want),
+						Detail: fmt.Sprintf("subscription with filter %q (%s): message with attributes %v delivered=%v, reference says %v", texts[si], via, attrs[mi], got[mi], want),
+						Sig:    map[string]any{"via_dead_letter": viaDL},
 						Replay: filterCase{Kind: "filter", Text: filt.Join(conds[si].Tokens(nil), nil), Verdict: "IN", Maps: []map[string]string{attrs[mi]}},
 					})
 				}
